@@ -3,7 +3,8 @@ From Cashews Require Import Base.Prelude Model.Lock.
 Open Scope Z_scope.
 
 (* per key: events in the order the backend commands really ran, with what each returned *)
-Inductive case := CLock (traces : list (list (event * bool))).
+(* per task: wait flag, refused attempts, attempts, how its call ended (0 entered and left, 1 LockedError, 2 cancelled, 3 never ended) *)
+Inductive case := CLock (traces : list (list (event * bool))) (policy : list (bool * nat * nat * nat)).
 
 Fixpoint replay (c : cfg) (tr : list (event * bool)) : bool :=
   match tr with
@@ -33,9 +34,19 @@ Fixpoint ok_lock (now : Z) (inside : list (nat * Z * Z)) (holder : option (nat *
   | (ForeignUnlock _, r) :: rest => negb r && ok_lock now inside holder rest     (* a foreign token releases nothing *)
   end.
 
+(* waiting policy: a waiting caller is never turned away (it keeps attempting until it acquires); a caller that does
+   not wait is turned away by its first refused attempt and never enters afterwards *)
+Definition ok_policy (p : bool * nat * nat * nat) : bool :=
+  let '(wait, refused, tries, out) := p in
+  match out with
+  | 0%nat => if wait then Nat.eqb tries (S refused) else Nat.eqb refused 0 && Nat.eqb tries 1
+  | 1%nat => negb wait && Nat.eqb refused 1 && Nat.eqb tries 1
+  | _ => true
+  end.
+
 Definition judge (c : case) : verdict :=
   match c with
-  | CLock traces => (forallb (replay init) traces, forallb (ok_lock 0 [] None) traces, [])
+  | CLock traces policy => (forallb (replay init) traces, forallb (ok_lock 0 [] None) traces && forallb ok_policy policy, [])
   end.
 Definition explain (c : case) :=
-  match c with CLock traces => map (fun tr => snd (fold_left (fun cr e => let '(c, rs) := cr in let '(c', r) := step c (fst e) in (c', rs ++ [r])) tr (init, []))) traces end.
+  match c with CLock traces _ => map (fun tr => snd (fold_left (fun cr e => let '(c, rs) := cr in let '(c', r) := step c (fst e) in (c', rs ++ [r])) tr (init, []))) traces end.
